@@ -24,6 +24,9 @@ CONSTANTS Ids,          \* slots of the pool, e.g. 1..3
           SetDtypes,    \* targets of set_dtype
           SliceArgs,    \* set of <<start, stop>> (NoneIx = None)
           MergeArgs,    \* amounts for merge_bins
+          TakeArgs,     \* index sequences for masks / index arrays
+          EdgeVals,     \* candidate edge positions (results of i[int])
+          MinFreqs,     \* thresholds for merge_bins(min_frequency=...)
           MaxDepth,
           MaxVal        \* bound on numerators/denominators (keeps TLC in 32-bit integers)
 
@@ -233,12 +236,69 @@ Merge(i, a, inplace, k) ==
     /\ pool' = [pool EXCEPT ![k] = Merged(pool[i], a)]
     /\ ghost' = [ghost EXCEPT ![k] = ghost[i]]
 
+(* merging across a gap must be refused and change nothing *)
+MergeRefused(i, a, inplace) ==
+    /\ Live /\ On("MergeRefused") /\ Has(i) /\ ~CanMerge(pool[i].bins, a)
+    /\ UNCHANGED <<pool, ghost>>
+
+(* merge_bins(2.5): a non-integral amount must be refused *)
+MergeFracRefused(i, inplace) ==
+    /\ Live /\ On("MergeFracRefused") /\ Has(i)
+    /\ UNCHANGED <<pool, ghost>>
+
+(* k = i.merge_bins(min_frequency=t): SOME coarsening into runs of adjacent bins (the statement does not *)
+(* say which); the run lengths are chosen nondeterministically, the code must produce one of them.     *)
+Compositions(n) == {q \in UNION {[1..m -> 1..n] : m \in 1..n} : SumSeq(q) = n}
+RunStart(q, j) == 1 + SumSeq(SubSeq(q, 1, j - 1))
+CoarsenedBy(h, q) ==
+    [h EXCEPT !.bins = [j \in 1..Len(q) |-> <<Left(h.bins[RunStart(q, j)]), Right(h.bins[RunStart(q, j) + q[j] - 1])>>],
+              !.freq = [j \in 1..Len(q) |-> SumRange(h.freq, RunStart(q, j), RunStart(q, j) + q[j] - 1)],
+              !.err2 = [j \in 1..Len(q) |-> SumRange(h.err2, RunStart(q, j), RunStart(q, j) + q[j] - 1)]]
+MergeMinFreq(i, t, inplace, k) ==
+    /\ Live /\ On("MergeMinFreq") /\ Has(i) /\ Consecutive(pool[i].bins)
+    /\ (inplace => k = i) /\ (~inplace => Free(k))
+    /\ \E q \in Compositions(Len(pool[i].bins)) :
+          pool' = [pool EXCEPT ![k] = CoarsenedBy(pool[i], q)]
+    /\ ghost' = [ghost EXCEPT ![k] = ghost[i]]
+
 (* k = i[start:stop] (non-empty) *)
 Slice(i, start, stop, k) ==
     /\ Live /\ On("Slice") /\ Has(i) /\ Free(k)
     /\ SliceLo(Len(pool[i].bins), start) < SliceHi(Len(pool[i].bins), stop)
     /\ pool' = [pool EXCEPT ![k] = Sliced(pool[i], start, stop)]
     /\ ghost' = [ghost EXCEPT ![k] = Untracked]
+
+(* i[ix] with an integer (negative allowed): returns the bin's edges and content, creates nothing *)
+GetBin(i, ix, lo, hi, num) ==
+    /\ Live /\ On("GetBin") /\ Has(i)
+    /\ LET n == Len(pool[i].bins) x == IF ix < 0 THEN n + ix ELSE ix IN
+         /\ x \in 0..(n - 1)
+         /\ lo = Left(pool[i].bins[x + 1]) /\ hi = Right(pool[i].bins[x + 1]) /\ num = pool[i].freq[x + 1]
+    /\ UNCHANGED <<pool, ghost>>
+
+(* k = i[mask] / i[index array]: idx is the strictly increasing list of selected 0-based positions; *)
+(* how = "mask" | "array" | "list" says how the selection is spelled                                 *)
+Take(i, idx, how, k) ==
+    /\ Live /\ On("Take") /\ Has(i) /\ Free(k) /\ Len(idx) > 0
+    /\ \A x \in 1..Len(idx) : idx[x] \in 0..(Len(pool[i].bins) - 1)
+    /\ \A x \in 1..(Len(idx) - 1) : idx[x] < idx[x + 1]
+    /\ pool' = [pool EXCEPT ![k] = Taken(pool[i], idx)]
+    /\ ghost' = [ghost EXCEPT ![k] = Untracked]
+
+(* i[[2, 0]] / i[[1, 1]]: an index array that is not increasing; the statement says index arrays are   *)
+(* taken in increasing order, so the result is the selection of the sorted distinct positions.          *)
+TakeUnsorted(i, idx, k) ==
+    /\ Live /\ On("TakeUnsorted") /\ Has(i) /\ Free(k) /\ Len(idx) > 0
+    /\ \A x \in 1..Len(idx) : idx[x] \in 0..(Len(pool[i].bins) - 1)
+    /\ \E x \in 1..(Len(idx) - 1) : idx[x] >= idx[x + 1]
+    /\ pool' = [pool EXCEPT ![k] = Taken(pool[i], SetToSortSeq({idx[x] : x \in 1..Len(idx)}, LAMBDA a, b : a < b))]
+    /\ ghost' = [ghost EXCEPT ![k] = Untracked]
+
+(* reversed slice, wrongly sized mask, out-of-range index: refused, the source is untouched *)
+IndexRefused(i, what) ==
+    /\ Live /\ On("IndexRefused") /\ Has(i)
+    /\ what \in {"neg_step", "mask_short", "mask_long", "int_high", "int_low", "array_high"}
+    /\ UNCHANGED <<pool, ghost>>
 
 (* del k *)
 Drop(k) ==
@@ -267,7 +327,14 @@ Next ==
     \/ \E i \in Ids, v \in {1, 2} : SetName(i, v)
     \/ \E i, k \in Ids, a \in MergeArgs, ip \in BOOLEAN : Merge(i, a, ip, k)
     \/ \E i, k \in Ids, ab \in SliceArgs : Slice(i, ab[1], ab[2], k)
+    \/ \E i \in Ids, a \in MergeArgs, ip \in BOOLEAN : MergeRefused(i, a, ip)
+    \/ \E i \in Ids, ip \in BOOLEAN : MergeFracRefused(i, ip)
+    \/ \E i, k \in Ids, t \in MinFreqs, ip \in BOOLEAN : MergeMinFreq(i, t, ip, k)
     \/ \E k \in Ids : Drop(k)
+    \/ \E i \in Ids, ix \in -6..5, lo, hi \in EdgeVals, num \in 0..MaxVal : GetBin(i, ix, lo, hi, num)
+    \/ \E i, k \in Ids, idx \in TakeArgs, how \in {"mask", "array", "list"} : Take(i, idx, how, k)
+    \/ \E i, k \in Ids, idx \in TakeArgs : TakeUnsorted(i, idx, k)
+    \/ \E i \in Ids, what \in {"neg_step", "mask_short", "mask_long", "int_high", "int_low", "array_high"} : IndexRefused(i, what)
 
 Spec == Init /\ [][Next]_vars
 
@@ -315,6 +382,30 @@ MomentsScaleInvariant ==
             /\ x.st.mn = pool[i].st.mn /\ x.st.mx = pool[i].st.mx
             /\ x.st.w * c[2] * pool[i].den = pool[i].st.w * c[1] * x.den \* weight scales by c
 
+(* C10: merge_bins(amount) conserves content and boundaries (checked on the operator for all live members). *)
+MergeLaws ==
+    \A i \in Ids, a \in MergeArgs : (Has(i) /\ CanMerge(pool[i].bins, a)) =>
+        LET m == Merged(pool[i], a) n == Len(pool[i].bins)
+        IN  /\ Total(m) = Total(pool[i]) /\ SumSeq(m.err2) = SumSeq(pool[i].err2)
+            /\ m.under = pool[i].under /\ m.over = pool[i].over
+            /\ FirstEdge(m.bins) = FirstEdge(pool[i].bins) /\ LastEdge(m.bins) = LastEdge(pool[i].bins)
+            /\ Len(m.bins) = (n + a - 1) \div a
+            /\ \A j \in 1..Len(m.bins) :
+                  /\ Left(m.bins[j]) = Left(pool[i].bins[(j - 1) * a + 1])
+                  /\ Right(m.bins[j]) = Right(pool[i].bins[Min2(j * a, n)])
+                  /\ m.freq[j] = SumOver({x \in 1..n : (x - 1) \div a = j - 1}, LAMBDA x : pool[i].freq[x])
+
+(* C11: a contiguous slice conserves total + underflow + overflow; selections keep the indexed values. *)
+SliceLaws ==
+    \A i \in Ids, ab \in SliceArgs :
+        (Has(i) /\ SliceLo(Len(pool[i].bins), ab[1]) < SliceHi(Len(pool[i].bins), ab[2])) =>
+            LET x == Sliced(pool[i], ab[1], ab[2])
+                lo == SliceLo(Len(pool[i].bins), ab[1])
+            IN  /\ (IsNum(pool[i].under) /\ IsNum(pool[i].over)) =>
+                      Total(x) + x.under + x.over = Total(pool[i]) + pool[i].under + pool[i].over
+                /\ \A b \in 1..Len(x.bins) : x.bins[b] = pool[i].bins[lo + b] /\ x.freq[b] = pool[i].freq[lo + b]
+                                               /\ x.err2[b] = pool[i].err2[lo + b]
+
 (* C12: an action on one member leaves every other member unchanged. *)
 Independence ==
     [][Cardinality({i \in Ids : pool'[i] # pool[i]}) <= 1]_vars
@@ -335,6 +426,8 @@ RefusalIsNoOp ==
     [][((\E i, j \in Ids : AddRefused(i, j) \/ IAddRefused(i, j) \/ ISubRefused(i, j))
         \/ (\E i \in Ids, b \in BOOLEAN : NegRefused(i, b))
         \/ (\E i \in Ids : DivZeroRefused(i))
-        \/ (\E i \in Ids, d \in SetDtypes : SetDtypeRefused(i, d)))
+        \/ (\E i \in Ids, d \in SetDtypes : SetDtypeRefused(i, d))
+        \/ (\E i \in Ids, what \in {"neg_step", "mask_short", "mask_long", "int_high", "int_low", "array_high"} : IndexRefused(i, what))
+        \/ (\E i \in Ids, a \in MergeArgs, ip \in BOOLEAN : MergeRefused(i, a, ip) \/ MergeFracRefused(i, ip)))
        => UNCHANGED <<pool, ghost>>]_vars
 =============================================================================
